@@ -4,11 +4,27 @@ CARRIERS = ["tcp", "tcp+tls", "tcp-starttls", "unix", "ws", "wss", "ws-starttls"
 RULE = ("in-process socketace client (socket listener + upstream) and server per carrier {tcp, tcp+tls, StartTLS, unix, ws, wss, ws+StartTLS, "
         "stdio pipes, KCP, KCP+StartTLS, DNS}; a real application socket and a real target socket; payloads with every byte value, lengths "
         "{1, 4095..4097, 32639..32641, 32767..32769, 65535..65537, 1 MiB (thorough: 5 MiB)}, write partitions from a random list of "
-        "sizes, both directions; compared byte for byte. distinct_nontrivial = distinct (carrier, length, partition)")
+        "sizes, both directions; compared byte for byte. The DNS carrier in addition at wire level (c01w): the real server listener with a "
+        "session opened by real version / set-options exchanges, the real client serializer and queues, every query and answer packed "
+        "and unpacked by the DNS library, a scripted network that keeps every packed message and delivers any of them at any later point; "
+        "6 upstream codecs x 39 carrying (record type, downstream codec) pairs x 4 domain lengths, every upstream chunk size 0..mtu and "
+        "the first that does not fit, downstream chunk sizes next to every record / string / label boundary, histories with loss, "
+        "duplication, late delivery and replay, payloads of every octet value, starts near the 16-bit wrap, and the pairs that do not "
+        "carry; each case is run on the model too and compared token for token. distinct_nontrivial = distinct (carrier, length, "
+        "partition) resp. distinct wire-level histories")
 EXPLANATION = ("Composition property: the theorems cover each adapter's contract that is socketace's own (frame size fits the carrier message, "
-               "copy loop writes what it read before reporting, websocket adapter, handshake read-ahead = C06, DNS carrier = C07+C09+C10); "
+               "copy loop writes what it read before reporting, websocket adapter, handshake read-ahead = C06) and, for the DNS carrier, the "
+               "whole path as ONE wire-level model (Queue/WireLink.v): queries are the packed question octets (C09 pipeline), answers the "
+               "packed messages (C10 pipeline), the endpoints the C07 queues; c01_dns_wire_refines proves that this system refines the "
+               "abstract link of C07 for every well-formed parameter tuple and every admissible history, and c01_dns_wire_fidelity / "
+               "_complete / _not_lost / _no_false_error are the C07 theorems for the octets on the wire. "
                "TLS, smux, KCP and gorilla are hypotheses exercised end to end here.")
-TRUSTED = ["crypto/tls, xtaci/smux, kcp-go, gorilla/websocket, OS sockets: exercised, not modelled"]
+TRUSTED = ["crypto/tls, xtaci/smux, kcp-go, gorilla/websocket, OS sockets: exercised, not modelled",
+           "DNS carrier: miekg/dns name / record packing and the stdlib codecs at specification level (as in C08-C10), validated here by the "
+           "wire-level differential runs; the client half of the c01w harness repeats the few statements of SendAndReceive/QueryWithData "
+           "around the real Serializer and queues (those functions block on a communicator); the server half is the real onMessage",
+           "DNS carrier: message ids, the communicator's retry ladder and the poller's timing are not part of the wire-level model "
+           "(C07 connection-level scenarios exercise them)"]
 RUN_TIMEOUT = 3000
 
 
@@ -63,6 +79,7 @@ def cases(tier, rng):
         cs.append({"line": line, "key": line, "model": False, "tags": {"carrier": c, "n": n, "dir": "parallel"}})
     # run on the implementation only: a physical session older than the handshake's time limit (1 s here) when the connection is
     # opened, and the copy loops' logging variant (SOCKETACE_PIPE_DEBUG=1): multi-block transfers with further data after the first block
+    cs += wire_cases(tier, rng)
     for c in (CARRIERS if thorough else ["tcp", "tcp-starttls", "kcp", "ws"]):
         if c == "dns":
             continue
@@ -78,8 +95,280 @@ def cases(tier, rng):
     return cs
 
 
+# ---------------------------------------------------------------------------------------------------------------------------------
+# the DNS tunnel end to end at wire level (model Queue/WireLink.v, harness op c01w)
+UP_CODECS = {84: (8, 5), 83: (4, 3), 85: (4, 3), 87: (5, 4), 88: (1231, 1000), 86: (8, 7)}     # code -> Ratio() as a rational
+DOWN_TEXT = [84, 83, 85, 87, 88, 86]          # Base32, Base64, Base64u, Base85, Base91, Base128
+RAW = 82
+RT = {"NULL": 10, "PRIVATE": 65000, "TXT": 16, "SRV": 33, "MX": 15, "CNAME": 5, "AAAA": 28, "A": 1}
+DOMAINS = ["t.example.org", "a", "tunnel-%s.example.net" % ("x" * 40),
+           ".".join(["d" * 63, "e" * 63, "f" * 63, "gh12-5"])]               # lengths 13, 1, 59, 198
+
+
+def hx(b):
+    return "#" + bytes(b).hex()
+
+
+def upstream_mtu(dlen, cu):
+    num, den = UP_CODECS[cu]
+    a = (253 - dlen - 2 - 4) * den - 10 * num
+    return max(0, (a * 59) // (num * 60))
+
+
+def enc_len(code, n):
+    if code == RAW:
+        return n
+    num, den = UP_CODECS[code]
+    return -(-n * num // den)
+
+
+def longest_data_string(dlen):
+    space = 253 - 2 - dlen - 2
+    space -= space // 58
+    return space - 2
+
+
+def carries(rt, cd):
+    if rt in ("A", "AAAA"):
+        return False
+    return cd != RAW or rt in ("NULL", "PRIVATE", "TXT")
+
+
+def down_boundaries(rt, cd, dlen):
+    """chunk sizes whose encoded packet response sits next to a record / string / label boundary"""
+    marks = [57, 114, 171, 253, 506, 759]
+    if rt in ("SRV", "MX", "CNAME"):
+        ml = longest_data_string(dlen)
+        marks += [ml, 2 * ml, 3 * ml, ml - 2, 2 * (ml - 2)]
+    out = set()
+    for n in range(0, 900):
+        ln = 1 + enc_len(cd, 5 + n)
+        if any(abs(ln - m) <= 2 for m in marks):
+            out.add(n)
+    return sorted(out)
+
+
+def wire_history(rng, length, mu, fd, stale_ok, cache):
+    ev = []
+    nq = na = 0
+    pend_q = None
+    faults = writes = 0
+    recent = True
+    while len(ev) < length:
+        r = rng.below(100)
+        if r < 22:
+            side = rng.below(2)
+            lim = mu if side == 0 else fd
+            mtu = rng.choice([1, 7, max(1, lim - 1), lim, lim])
+            n = rng.weighted([(0, 1), (1, 3), (mtu - 1, 2), (mtu, 3), (mtu + 1, 2), (rng.range(1, 6) * mtu, 2), (rng.range(1, 3 * mtu), 3)])
+            n = min(n, 1500)
+            d = rng.bytes(n) if rng.chance(2, 3) else bytes(rng.choice([0, 46, 92, 255, 34, 32, 128]) for _ in range(n))
+            ev.append("w %d %s %d" % (side, hx(d), mtu))
+            writes += 1
+        elif r < 32:
+            ev.append("r %d %d" % (rng.below(2), rng.choice([1, 2, 16, 100, 4096])))
+        else:
+            ev.append("q " + cache())
+            nq += 1
+            fate = rng.weighted([("ok", 62), ("qlost", 8), ("alost", 8), ("qdup", 6), ("adup", 4), ("replay", 6), ("areplay", 3), ("late", 3)])
+            if fate == "ok":
+                ev += ["ds %d" % (nq - 1), "dc %d" % na]; na += 1
+            elif fate == "qlost":
+                faults += 1
+            elif fate == "alost":
+                ev.append("ds %d" % (nq - 1)); na += 1
+                faults += 1
+            elif fate == "qdup":
+                ev += ["ds %d" % (nq - 1), "ds %d" % (nq - 1), "dc %d" % (na + 1)]; na += 2
+                faults += 1
+            elif fate == "adup":
+                ev += ["ds %d" % (nq - 1), "dc %d" % na, "dc %d" % na]; na += 1
+                faults += 1
+            elif fate == "replay":
+                i = rng.below(nq) if (stale_ok and rng.chance(1, 2)) else max(0, nq - 1 - rng.below(40))
+                if nq - 1 - i > 40:
+                    recent = False
+                ev.append("ds %d" % i); na += 1
+                if rng.chance(1, 2):
+                    ev.append("dc %d" % (na - 1))
+                faults += 1
+            elif fate == "areplay" and na > 0:
+                j = rng.below(na) if (stale_ok and rng.chance(1, 2)) else max(0, na - 1 - rng.below(40))
+                if na - 1 - j > 40:
+                    recent = False
+                ev.append("dc %d" % j)
+                faults += 1
+            elif fate == "late":
+                pend_q = nq - 1
+                faults += 1
+            if pend_q is not None and rng.chance(1, 3):
+                ev += ["ds %d" % pend_q, "dc %d" % na]; na += 1
+                pend_q = None
+    ev.append("pump 0 %d 0 0 %s" % (writes * 12 + 10, cache()))
+    return ev, recent, faults, writes
+
+
+def wstart(rng):
+    k = rng.below(4)
+    if k == 0:
+        return 0
+    if k == 1:
+        return rng.range(65400, 65535)
+    return rng.below(65536)
+
+
+def wmk(cu, cd, rt, uid, dom, c0, s0, ev, src, recent=False, faults=0, writes=0, drained=True):
+    line = "c01w %d %d %d %d %s %d %d %s" % (cu, cd, RT[rt], uid, hx(dom.encode()), c0, s0, " ".join(ev))
+    return {"line": line, "key": line if (faults > 0 and writes > 0) or src.startswith("sweep") else None,
+            "tags": {"carrier": "dns-wire", "n": len(ev), "dir": src, "rt": rt, "cu": cu, "cd": cd, "carries": carries(rt, cd),
+                     "recent": recent, "drained": drained and carries(rt, cd), "src": src}}
+
+
+def wire_cases(tier, rng):
+    thorough = tier == "thorough"
+    cs = []
+
+    def cache():
+        return hx(bytes(rng.choice(b"abcdefghijklmnopqrstuvwxyz0123456789") for _ in range(3)))
+    combos = [(rt, cd) for rt in ("NULL", "PRIVATE", "TXT") for cd in DOWN_TEXT + [RAW]] + \
+             [(rt, cd) for rt in ("SRV", "MX", "CNAME") for cd in DOWN_TEXT]
+    ups = sorted(UP_CODECS)
+    # (1) every upstream chunk size 0..mtu (and the first size that no longer fits) with every upstream codec, one exchange each
+    for cu in ups:
+        for dom in (DOMAINS if thorough else [DOMAINS[0], rng.choice(DOMAINS[1:])]):
+            mu = upstream_mtu(len(dom), cu)
+            rt, cd = rng.choice(combos)
+            ev = []
+            k = 0
+            sizes = list(range(0, mu + 1))
+            if not thorough:
+                # the quick tier keeps the sizes whose encoded name body ends next to a label boundary (a dot after every 57 characters;
+                # names above 60 characters are dotted), both ends of the range, and a random third of the rest
+                near = lambda n: any(abs(6 + enc_len(cu, 3 + (2 if n else 0) + n) - b) <= 2 for b in (57, 60, 114, 171, 228))
+                sizes = [n for n in sizes if n < 3 or n > mu - 3 or near(n) or rng.chance(1, 3)]
+            for n in sizes + [mu + 1, mu + 12]:
+                d = rng.bytes(n)
+                ev += ["w 0 %s %d" % (hx(d), max(n, 1)), "q " + cache()]
+                if n <= mu:
+                    ev += ["ds %d" % k, "dc %d" % k]
+                    k += 1
+                else:
+                    ev += ["pump 1 1 0 0 " + cache()]           # the chunk that does not fit stays queued: the model must agree on that too
+                    break
+                ev.append("r 1 4096")
+            cs.append(wmk(cu, cd, rt, rng.choice([0, 1, 35, 36]), dom, wstart(rng), wstart(rng), ev, "sweep-up", drained=False))
+    # (2) downstream chunk sizes next to every record / string / label boundary, every carrying (record type, codec) pair
+    for rt, cd in combos:
+        doms = DOMAINS if thorough else [rng.choice(DOMAINS)]
+        for dom in doms:
+            sizes = down_boundaries(rt, cd, len(dom))
+            if not thorough:
+                sizes = [n for n in sizes if n < 300 and rng.chance(1, 3) or rng.chance(1, 8)] + [0, 1, 2]
+            sizes += [rng.range(1, 1600) for _ in range(6 if thorough else 2)]
+            cu = rng.choice(ups)
+            ev = []
+            k = 0
+            for n in sizes:
+                d = rng.bytes(n)
+                ev += ["w 1 %s %d" % (hx(d), max(n, 1)), "q " + cache(), "ds %d" % k, "dc %d" % k, "r 0 4096"]
+                k += 1
+            ev.append("pump 0 4 0 0 " + cache())
+            cs.append(wmk(cu, cd, rt, rng.choice([0, 7, 1295 if thorough else 40]), dom, wstart(rng), wstart(rng), ev, "sweep-down"))
+    # (3) histories with loss, duplication, late delivery and replay, both directions, every payload octet
+    for i in range(600 if thorough else 90):
+        rt, cd = combos[i % len(combos)] if i < 2 * len(combos) else rng.choice(combos)
+        cu = ups[i % len(ups)]
+        dom = rng.choice(DOMAINS)
+        mu = upstream_mtu(len(dom), cu)
+        fd = rng.choice([1, 50, 200, 1000, 1534])
+        stale_ok = rng.chance(1, 3)
+        ev, recent, faults, writes = wire_history(rng, rng.range(5, 600 if thorough and rng.chance(1, 8) else 90), mu, fd, stale_ok, cache)
+        cs.append(wmk(cu, cd, rt, rng.choice([0, 1, 35, 36, 100]), dom, wstart(rng), wstart(rng), ev,
+                      "history-stale" if stale_ok else "history-recent", recent, faults, writes))
+    # (4) across the 16-bit wrap through the wire, with sparse faults
+    for side in ((0, 1) if thorough else (rng.below(2),)):
+        rt, cd = rng.choice(combos)
+        cu = rng.choice(ups)
+        k = 66000 if thorough else 700
+        c0, s0 = (wstart(rng), wstart(rng)) if thorough else (65536 - rng.range(100, 600), 65536 - rng.range(100, 600))
+        ev = []
+        nq = na = 0
+        left = k
+        while left > 0:
+            n = min(left, rng.range(150, 400))
+            ev.append("pump %d %d %d %d %s" % (side, n, rng.choice([1, 3, 20]), rng.below(251), cache()))
+            left -= n
+            nq += n
+            na += n
+            ev += ["q " + cache(), "q " + cache(), "ds %d" % (nq + 1), "dc %d" % na, "dc %d" % na]
+            nq += 2
+            na += 1
+        ev.append("pump %d 20 0 0 %s" % (side, cache()))
+        cs.append(wmk(cu, cd, rt, 3, DOMAINS[0], c0, s0, ev, "wire-wrap", True, 2, k))
+    # (5) outside the carrying combinations: the failure is reported (pack error, undecodable answer), never a silently different stream
+    for rt, cd in [("A", 84), ("AAAA", 84), ("A", RAW), ("AAAA", 86), ("CNAME", RAW), ("MX", RAW), ("SRV", RAW)]:
+        for _ in range(3 if thorough else 1):
+            ev, recent, faults, writes = wire_history(rng, rng.range(10, 60), upstream_mtu(13, 84), rng.choice([3, 14, 28, 100]), False, cache)
+            cs.append(wmk(84, cd, rt, 2, DOMAINS[0], wstart(rng), wstart(rng), ev, "not-carrying", False, faults, writes, drained=False))
+    return cs
+
+
+def wire_tags(line):
+    """tags of a c01w line that did not come from the generators (corpus, replay)"""
+    f = line.split()
+    cu, cd, qt = int(f[1]), int(f[2]), int(f[3])
+    rt = [k for k, v in RT.items() if v == qt][0]
+    return {"carrier": "dns-wire", "n": len(f), "dir": "corpus", "rt": rt, "cu": cu, "cd": cd, "carries": carries(rt, cd) and cu in UP_CODECS,
+            "recent": False, "drained": False, "src": "corpus"}
+
+
+def wire_oracle(case, impl):
+    import props.c07 as c07
+    p = impl.split()
+    t = case["tags"] if "carries" in case.get("tags", {}) else wire_tags(case["line"])
+    if not p or p[0] in ("panic", "died", "timeout", "harness-error", "setup-failed") or "end" not in p:
+        return [("crash;carrier=dns-wire", "wire-level history could not be run: " + impl[:200])]
+    d, body = c07.parse_end(p[:p.index("wire")] if "wire" in p else p)
+    out = []
+    if t["cd"] == RAW and not t["carries"] and t["rt"] not in ("A", "AAAA"):
+        # Raw over a record type that carries the payload inside a domain name: dots, backslashes and spaces of the payload do not
+        # survive. The client's downstream codec test rejects this pair, so no session runs with it (C10/C11); here only the model's
+        # prediction of what happens is compared (agree)
+        return out
+    if not d["accc"].startswith(d["rds"] + d["sbuf"]):
+        out.append(("bytes-altered;carrier=dns-wire;dir=up", "server-side bytes are not a prefix of what the client's writes accepted (%d read+buffered of %d accepted): %s"
+                    % (len(d["rds"]) + len(d["sbuf"]), len(d["accc"]), case["line"][:300])))
+    if not d["accs"].startswith(d["rdc"] + d["cbuf"]):
+        out.append(("bytes-altered;carrier=dns-wire;dir=down", "client-side bytes are not a prefix of what the server's writes accepted (%d of %d): %s"
+                    % (len(d["rdc"]) + len(d["cbuf"]), len(d["accs"]), case["line"][:300])))
+    if d["lostc"] or d["losts"]:
+        out.append(("bytes-lost;carrier=dns-wire", "a Write returned (its queue drained) while accepted bytes had not reached the peer"))
+    if t["carries"]:
+        bad = [w for w in ("undecodable", "noanswer", "drop", "error", "other") if w in body]
+        for i in range(len(body) - 1):
+            if body[i] == "c" and body[i + 1] in ("3", "4", "5"):
+                bad.append("c " + body[i + 1])
+        if t["src"] != "sweep-up" and "encerr" in body:
+            bad.append("encerr")
+        if bad:
+            out.append(("wire-message-failed;carrier=dns-wire;rt=%s" % t["rt"], "a message of the tunnel could not be formed or read inside the carrying "
+                        "combinations (%s): %s" % (",".join(bad), case["line"][:300])))
+    if t["drained"] and "stuck" not in body and "encerr" not in body:
+        if d["col"] or d["sol"] or d["rds"] + d["sbuf"] != d["accc"] or d["rdc"] + d["cbuf"] != d["accs"]:
+            out.append(("bytes-lost;carrier=dns-wire;no-progress", "after the path stopped losing not everything arrived: out queues %d/%d, up %d of %d, down %d of %d"
+                        % (d["col"], d["sol"], len(d["rds"]) + len(d["sbuf"]), len(d["accc"]), len(d["rdc"]) + len(d["cbuf"]), len(d["accs"]))))
+    if t.get("recent") and t["carries"]:
+        for i in range(len(body) - 1):
+            if (body[i] == "s" and body[i + 1] == "1") or (body[i] == "c" and body[i + 1] in ("1", "2")):
+                out.append(("false-error;carrier=dns-wire", "loss/duplication/late delivery within 40 messages surfaced as an error (%s %s)" % (body[i], body[i + 1])))
+                break
+    return out
+
+
 def oracle(case, impl):
     t = case["tags"]
+    if t.get("carrier") == "dns-wire" or case["line"].startswith("c01w "):
+        return wire_oracle(case, impl)
     p = impl.split()
     if not p or p[0] in ("panic", "died", "timeout", "harness-error"):
         return [("crash;carrier=" + t["carrier"], "transfer scenario crashed: " + impl[:150])]
@@ -128,7 +417,9 @@ def agree(case, impl, model):
 def distribution(cs):
     d = {}
     for c in cs:
-        k = c["tags"]["carrier"]
+        k = c["tags"].get("carrier", "corpus")
+        if k == "dns-wire":
+            k += "/" + c["tags"]["src"]
         d[k] = d.get(k, 0) + 1
     return d
 
@@ -138,9 +429,19 @@ META = {
                   "- multiplexer frame fits one carrier message on both ends, the copy loop reports end-of-stream only after writing all it "
                   "read, the websocket byte-stream adapter returns exactly what was written for every sequence of writes and of read-buffer "
                   "sizes (model run against two real adapters over a real websocket, read length by read length), handshake read-ahead is "
-                  "handed on (C06), the DNS carrier is a reliable byte pipe (C07, C09, C10) - and byte-for-byte "
+                  "handed on (C06) - and FULL for the DNS carrier's own path: one wire-level model composed of the request pipeline (C09), the "
+                  "response pipeline (C10) and the two queue pairs (C07), where every query is the packed question octets and every answer "
+                  "the packed message, proved to refine the abstract link for every upstream codec the client can select, every carrying "
+                  "(record type, downstream codec) pair, every tunnel domain, user id and fragment size within the stated bounds, and every "
+                  "history of writes, reads, losses, duplicates, delays and replays within the age bound: the octets delivered are a prefix of "
+                  "the octets written in both directions, a returned Write is delivered, no message fails to encode or decode, and once the "
+                  "path stops losing everything arrives (c01_dns_wire_fidelity, _not_lost, _no_false_error, _complete); the composed model is "
+                  "run token for token against the real listener, serializer, queues and DNS library. Plus byte-for-byte "
                   "end-to-end transfers on every carrier, with boundary lengths and random write partitions, on every run.",
     "level_note": "Hypotheses: TLS transparent, smux per-stream FIFO, KCP reliable, gorilla delivers whole messages in order. They are exercised "
-                  "end to end, not proved.",
-    "technique": "Coq proofs of adapter contracts + end-to-end differential transfers (prediction: identity)",
+                  "end to end, not proved. DNS wire-level theorems: message age bound A + W + 128 <= 65536 (as C07); A and AAAA answers and "
+                  "Raw over name-carrying records are outside params_ok (findings of C10; the model predicts the reported pack error); "
+                  "miekg/dns packing and the stdlib codecs are specification-level models validated by the differential runs.",
+    "technique": "Coq proofs of adapter contracts, a refinement proof (wire-level DNS tunnel -> abstract link) + differential runs of the "
+                 "composed model against the real code + end-to-end differential transfers (prediction: identity)",
 }
